@@ -11,7 +11,7 @@ From Coq Require Import List NArith Bool.
 Import ListNotations.
 Require Import Celma.Common.Res Celma.FixedStr.FsBase Celma.FixedStr.FsModel
   Celma.FixedStr.FsSafe Celma.FixedStr.FsSafeAll Celma.FixedStr.FsStd Celma.FixedStr.FsRefine
-  Celma.FixedStr.FsRefine3 Celma.FixedStr.FsRefine4 Celma.FixedStr.FsPinned.
+  Celma.FixedStr.FsRefine3 Celma.FixedStr.FsRefine4 Celma.FixedStr.FsPinned Celma.FixedStr.FsIter.
 Local Open Scope N_scope.
 
 (** Every modifying operation (all 40 modelled entry points: constructors and
@@ -30,12 +30,13 @@ Print Assumptions C11_mutators_refine.
 
 (** Observers with a proof: the three compare implementations (9 overloads),
     starts_with (4 overloads), substr, copy, at / front / back / length / empty /
-    str, operator== and operator!= return exactly what std::string returns on
-    the same text, and change nothing.
+    str, operator== and operator!=, and the traversal begin()..end() /
+    rbegin()..rend() return exactly what std::string returns on the same
+    text, and change nothing.
     Full statement (property C11) also covers ends_with, contains, the 30
-    overloads of the find family and the traversal with the four iterator
-    classes: for those the model is tied to std::string by the correspondence
-    check only (exhaustive small scopes), hence the name. *)
+    overloads of the find family and single iterator steps (--, +=, -=): for
+    those the model is tied to std::string by the correspondence check only
+    (exhaustive small scopes), hence the name. *)
 Theorem C11_observers_refine_partial :
   forall L s o x cs' cos' rs,
     CapOk L -> Inv L s -> Inv L o -> Bounded x -> CstrsOk x -> is_proved_obs x = true ->
@@ -43,6 +44,17 @@ Theorem C11_observers_refine_partial :
     step L s o x = Ok (s, o, rs) /\ cs' = abs s /\ cos' = abs o.
 Proof. intros L s o x cs' cos' rs H Hs Ho HB HC Hm. exact (obs_refines L H s o x Hs Ho HB HC Hm cs' cos' rs). Qed.
 Print Assumptions C11_observers_refine_partial.
+
+(** Iteration in both directions visits the text / the reversed text. *)
+Theorem C11_iteration_forward :
+  forall L s, CapOk L -> Inv L s -> walk (fuel L) s (it_inc s) (it_begin s) [] = Ok (abs s).
+Proof. intros L s H. exact (iter_forward L H s). Qed.
+Print Assumptions C11_iteration_forward.
+
+Theorem C11_iteration_reverse :
+  forall L s, CapOk L -> Inv L s -> walk (fuel L) s it_dec (rit_begin s) [] = Ok (rev (abs s)).
+Proof. intros L s H. exact (iter_reverse L H s). Qed.
+Print Assumptions C11_iteration_reverse.
 
 (** operator== and operator!= are complementary for all operands *)
 Theorem C11_eq_neq_complementary :
